@@ -20,7 +20,7 @@ CHECKS = {
         "parts": BASE,
         "level": "exploration",
         "technique": "runtime monitor: round-trip identity oracle over bounded-exhaustive and random strings on the three real backends",
-        "rule": "inputs: every string over the 18-symbol escape alphabet {\\ ' \" NUL BS TAB LF CR SUB 0 b t z n r a e-acute %} up to length 4 (quick) / 6 (thorough) plus random Unicode strings, each on MySQL, Postgres and SQLite; non-trivial = escape_string changed the input; distinct = distinct (input, backend)",
+        "rule": "inputs: every string over the 18-symbol escape alphabet {\\ ' \" NUL BS TAB LF CR SUB 0 b t z n r a e-acute %} up to length 4 (quick) / 6 (thorough) plus random Unicode strings, each on MySQL, Postgres and SQLite, the backend held in one of five ways (behind &dyn QueryBuilder, as the struct, boxed, behind a double reference, as a boxed trait object; method-call syntax); non-trivial = escape_string changed the input; distinct = distinct (input, backend)",
         "assumptions": ["identity is checked on Rust Strings (exact code points)"],
         "design_ref": "DESIGN.md §5 C17",
         "level_text": "unescape_string(escape_string(s)) == s is executed on the real backends for every string of the bounded space and a large random sample; exploration is appropriate because inverse-ness can only break on short escape-relevant sequences, which are enumerated exhaustively.",
